@@ -456,15 +456,18 @@ def check(db, rep):
     from rules import C03
     C03.loud_rule(db, rep, r6, [R + 'ASTInterpreter', R + 'ASTInterpreter::ImpEvaluator', R + 'ASTInterpreter::NameCollector'],
                   'ASTInterpreter::AfterVisit then logs unknownError for an expression the checker accepted', prefix='evaluator_', defensive_variant_tests=True)
+    evaluator_error_count(db, r6)
     r7 = rep.rule('r7', 'ORDER: Interpreter::Evaluate parses, type-checks, normalises and evaluates in this order, each step guarded by the success of the previous', 1)
     order_rule(db, r7)
     r8 = rep.rule('r8', 'NORMALISE-SCOPE: eliminating a tuple declaration rewrites every in-scope occurrence of its variables (also a child that is itself a bare variable)', 5)
     normalise_scope_rule(db, r8, tg)
+    fresh_names_rule(db, r8)
     r10 = rep.rule('r10', 'DECL-VARS: the identifier of a declared variable is read only from a child that the tree grammar guarantees to be a declaration', 6)
     note['decl_var_sites'] = decl_vars_rule(db, r10, tg)
     r9 = rep.rule('r9', 'TYPING-SUPPORT (shared with C03 r8, r9): the checker accepts a set-theoretic construct only when the typing rule derives a type, and the type algebra is the specificity order; the evaluator dereferences exactly these structures', 17)
     C03.type_algebra(db, r9)
     note['typing_rule_cases'] = C03.typing_rules(db, r9, rep.tier)
+    C03.recursion_typing(db, r9)
     for k, v in note.items():
         rep.note(k, v)
 
@@ -689,3 +692,65 @@ def decl_vars_rule(db, rule, tg):
                 else:
                     rule.ok(inst, 'child %d of %s is always a declaration' % (k, sorted(kinds)), f.loc(n))
     return n_sites
+
+
+def fresh_names_rule(db, rule):
+    """Bound variables of an inlined function body are renamed to fresh names; freshness must hold across all calls expanded in one expression
+    (a body may call another function inside the scope of its own bound variable): the number in the name comes from a member counter that is
+    only ever incremented, never reset or recomputed per call."""
+    from engine.modset import ModSets
+    N = R + 'Normalizer'
+    f = db.fn(N + '::SubstituteArgs', required=False)
+    if f is None:
+        rule.broken('anchor vanished: Normalizer::SubstituteArgs')
+        return
+    ts = [n for n in f.calls() if n.get('cs') == 'std::to_string' and n.get('args')]
+    if not ts:
+        rule.violation('SubstituteArgs:fresh-names', '%s:%d' % (f.file, f.line), 'the renamed variables are no longer numbered')
+        return
+    arg = f.strip(f.stmts[ts[0]['args'][0]])
+    fld = arg.get('member') if arg['k'] == 'MemberExpr' and (not f.children(arg) or f.strip(f.children(arg)[0])['k'] == 'CXXThisExpr') else None
+    if fld is None:
+        rule.violation('SubstituteArgs:fresh-names', f.loc(ts[0]), 'the fresh name is numbered by `%s`, which is not a counter of the normaliser: it restarts for every expanded call, so a function called inside the scope of another expanded body reuses the name of its bound variable' % arg.get('txt', '')[:50])
+        return
+    ms = ModSets(db)
+    bad = []
+    incs = 0
+    for g in db.methods_of(N):
+        if not g.has_cfg():
+            continue
+        for ev in ms.direct_events(g):
+            if ev[0] == fld:
+                if ev[1] == 'incdec' and ev[2].get('op') == '++':
+                    incs += 1
+                else:
+                    bad.append((g, ev[2]))
+    if bad:
+        rule.violation('SubstituteArgs:fresh-names', bad[0][0].loc(bad[0][1]), 'the fresh-name counter `%s` is reset or overwritten (`%s`): names restart and can capture a variable of an enclosing expanded body' % (fld, bad[0][1].get('txt', '')[:40]))
+    elif incs == 0:
+        rule.violation('SubstituteArgs:fresh-names', f.loc(ts[0]), 'the fresh-name counter `%s` is never incremented' % fld)
+    else:
+        rule.ok('SubstituteArgs:fresh-names', 'numbered by the member counter `%s`, which is only incremented' % fld, f.loc(ts[0]))
+
+
+def evaluator_error_count(db, rule):
+    """every ASTInterpreter::OnError overload counts the error as critical: AfterVisit appends unknownError to a failure with no counted error"""
+    from engine.evalmini import Interp, Obj, OutOfFragment, NOT_HANDLED, enum_values
+    eids = enum_values(db, R + 'ValueEID')
+    for f in [g for g in db.methods_of(R + 'ASTInterpreter') if g.name.endswith('::OnError') and g.has_cfg()]:
+        inst = 'OnError/%d:counts' % len(f.rec['params'])
+        bad = None
+        try:
+            for nm, val in sorted(eids.items()):
+                this = Obj(countCriticalErrors=0, reporter=None)
+                args = [val, 3] + ([b'p'] if len(f.rec['params']) == 3 else [])
+                Interp(db).call(f, args, this)
+                if this['countCriticalErrors'] != 1:
+                    bad = bad or 'ValueEID::%s is reported without being counted as critical: the evaluation fails and AfterVisit adds ValueEID::unknownError to the specific error' % nm
+        except OutOfFragment as e:
+            rule.broken('ASTInterpreter::OnError outside the evaluable fragment: %s' % e)
+            continue
+        if bad:
+            rule.violation(inst, '%s:%d' % (f.file, f.line), bad)
+        else:
+            rule.ok(inst, 'all %d evaluation error codes are counted' % len(eids), '%s:%d' % (f.file, f.line))
